@@ -259,9 +259,58 @@ def _with_rc(f):
         return f()
 
 
+def run_text(ctx):
+    """exponents whose storage key is not ASCII (>= 69) through the text format, over every save/load route: either the
+    exact polynomial comes back or the route raises - never another monomial"""
+    import io
+    import os
+    import tempfile
+    import warnings
+    exps = [5, 68, 69, 70, 100, 127, 128, 150, 196, 197, 200, 255, 256, 1000] if ctx.quick else list(range(60, 300, 3)) + [1000, 5000]
+    with tempfile.TemporaryDirectory() as tmp, warnings.catch_warnings():
+        warnings.simplefilter("ignore")
+        for e in exps:
+            p = numpoly.ndpoly.from_attributes([[2, 0], [e, 1]], [numpy.array([1.0, 2.0]), numpy.array([3.0, -1.0])], ("q0", "q1"))
+            want = den_of_struct(poly_to_struct(p))
+            routes = []
+            for saver in (numpoly.savetxt, numpy.savetxt):
+                routes.append((f"{saver.__module__.split('.')[0]}.savetxt -> BytesIO", lambda saver=saver: _via_buffer(io.BytesIO(), saver, p)))
+                routes.append((f"{saver.__module__.split('.')[0]}.savetxt -> StringIO", lambda saver=saver: _via_buffer(io.StringIO(), saver, p)))
+                for enc in (None, "latin1", "utf-8"):
+                    routes.append((f"{saver.__module__.split('.')[0]}.savetxt -> path, encoding={enc}",
+                                   lambda saver=saver, enc=enc: _via_path(os.path.join(tmp, "t.txt"), saver, p, enc)))
+            for label, f in routes:
+                ctx.evaluations += 1
+                ctx.count("text")
+                try:
+                    r = f()
+                except Exception:  # noqa: BLE001
+                    ctx.count("text.error-instead-of-value")
+                    continue
+                got = den_of_struct(poly_to_struct(r)) if isinstance(r, numpoly.ndpoly) else None
+                if got != want:
+                    ctx.fail({"kind": "text", "exponent": e, "route": label},
+                             f"q0**{e} saved through {label} loads as {den_key(got)[:120] if got is not None else type(r).__name__} without any error",
+                             ["text", "value"])
+                    break
+
+
+def _via_buffer(buf, saver, p):
+    saver(buf, p)
+    buf.seek(0)
+    return numpoly.loadtxt(buf)
+
+
+def _via_path(path, saver, p, enc):
+    kw = {} if enc is None else {"encoding": enc}
+    saver(path, p, **kw)
+    return numpoly.loadtxt(path, **kw)
+
+
 def run(ctx):
     ctx.rule = RULE
     run_narrow(ctx)
+    run_text(ctx)
     run_pairs(ctx)
     run_tuples(ctx)
     run_unrepresentable(ctx)
@@ -279,6 +328,10 @@ def search(ctx):
 
 def replay(ctx, case):
     n = len(ctx.failures)
+    if case["kind"] == "text":
+        run_text(ctx)
+        hits = [f["what"] for f in ctx.failures[n:] if f["case"].get("exponent") == case["exponent"]]
+        return hits[0] if hits else None
     if case["kind"] == "narrow":
         run_narrow(ctx)
         hits = [f["what"] for f in ctx.failures[n:] if f["case"]["dtype"] == case["dtype"]]
